@@ -312,13 +312,18 @@ def mapErr (t : Table) (cause : Cause) (e : ErrFeat) : Mapped := applyRules caus
 /-- the code the tier-1 client sees: `connect.CodeOf(err)` -/
 def Mapped.clientCode (m : Mapped) : Code := if m.native then m.code else .unknown
 
-/-- `BaseExecutor.wasmCall`: a failed execution of a module is "deterministic" unless the context is dead,
-in which case the context's error is wrapped instead. -/
-def moduleFailure (ctx : Option CtxErr) : ErrFeat :=
+/-- `BaseExecutor.wasmCall`: a module that panicked (`call.Err()`, looked at first) failed deterministically
+whatever the context; an execution that returned a runtime error is "deterministic" unless the executor's
+context is dead, in which case the context's error is wrapped instead (and the marker is absent). -/
+def moduleFailureP (panicked : Bool) (ctx : Option CtxErr) : ErrFeat :=
+  if panicked then { wasmDet := true } else
   match ctx with
   | none => { wasmDet := true }
   | some .canceled => { canceled := true }
   | some .deadline => { deadline := true }
+
+/-- a runtime error (no panic) -/
+def moduleFailure (ctx : Option CtxErr) : ErrFeat := moduleFailureP false ctx
 
 /-- a `Recv` error carrying the status tier 2 returned (the transport keeps the code) -/
 def statusErr (c : Code) : RpcErr := ⟨some c, false, false⟩
